@@ -1,6 +1,7 @@
 package main
 
 import (
+	"strconv"
 	"fmt"
 	"go/token"
 	"go/types"
@@ -348,6 +349,10 @@ func (e *Eng) doCall(fr *Frame, st *State, instr ssa.Instruction, cc *ssa.CallCo
 			e.siteHit[ss] = true
 			vars := map[string]Val{}
 			for _, vd := range ss.Vars {
+				if v, ok := e.callArgVar(fr, cc, vd.Name); ok {
+					vars[vd.Name] = v
+					continue
+				}
 				vars[vd.Name] = e.localAt(fr, st, instr, vd.Name)
 			}
 			t := e.evalClause(ss.Clause, st, e.entry, nil, vars)
@@ -379,6 +384,10 @@ func (e *Eng) doCall(fr *Frame, st *State, instr ssa.Instruction, cc *ssa.CallCo
 		nres := cc.Signature().Results().Len()
 		for i, vd := range ss.Vars {
 			if i >= nres {
+				if v, ok := e.callArgVar(fr, cc, vd.Name); ok {
+					vars[vd.Name] = v
+					continue
+				}
 				vars[vd.Name] = e.localAt(fr, st, instr, vd.Name)
 				continue
 			}
@@ -2331,4 +2340,19 @@ func (w *World) namedType(name string) types.Type {
 		}
 	})
 	return w.named[name]
+}
+
+
+// callArgVar: in call-site clauses the names arg0, arg1, ... denote the call's arguments and recv the
+// receiver of an interface method call.
+func (e *Eng) callArgVar(fr *Frame, cc *ssa.CallCommon, name string) (Val, bool) {
+	if name == "recv" && cc.IsInvoke() {
+		return e.val(fr, cc.Value), true
+	}
+	if strings.HasPrefix(name, "arg") {
+		if i, err := strconv.Atoi(name[3:]); err == nil && i >= 0 && i < len(cc.Args) {
+			return e.val(fr, cc.Args[i]), true
+		}
+	}
+	return nil, false
 }
